@@ -167,6 +167,40 @@ def work(chunk):
 STEMS = ["my.conf", "a b", "dash-name_1", "UPPER", "x.ucg.bak"]
 
 
+def work_two_inputs(chunk):
+    """`ucg build first.ucg second.ucg`: each file gets its artifact or not as if built alone, and the run fails if either does"""
+    srv = core.worker_server()
+    hist = {}
+    viol = []
+    for fmt, e1, e2 in chunk:
+        d = tempfile.mkdtemp(prefix="ucgverif-c14-")
+        try:
+            exp = {}
+            for stem, e in (("first", e1), ("second", e2)):
+                with open(os.path.join(d, stem + ".ucg"), "w") as f:
+                    f.write(source(fmt, [e]))
+                b = expected_bytes(srv, fmt, e)
+                if b is not None:
+                    exp[stem + "." + EXT[fmt]] = b
+            want_rc = 0 if len(exp) == 2 else 1
+            rc, out, err = core.run_ucg(["build", "first.ucg", "second.ucg"], cwd=d)
+            after = listing(d)
+            bad = None
+            if rc != want_rc:
+                bad = "exit-%s-expected-%s" % (rc, want_rc)
+            elif after != exp:
+                bad = "artifacts-differ"
+            k = "%s:two-inputs:%s" % (fmt, "agrees" if bad is None else "VIOLATION")
+            hist[k] = hist.get(k, 0) + 1
+            if bad:
+                kinds = "+".join("convertible" if (s + "." + EXT[fmt]) in exp else "unconvertible" for s in ("first", "second"))
+                viol.append(("%s:two-inputs:%s:%s" % (fmt, kinds, bad), {"fmt": fmt, "two_inputs": [e1, e2]},
+                             {"rc": rc, "after": sorted(after), "expected": sorted(exp), "stderr": err.decode("utf-8", "replace")[-300:]}))
+        finally:
+            shutil.rmtree(d, ignore_errors=True)
+    return {"evals": len(chunk), "hist": hist, "viol": viol, "transitions": len(chunk), "state_keys": []}
+
+
 def traces(thorough):
     # the artifact is named like the source file with the format's extension, whatever the stem looks like
     for fmt in EXT:
@@ -217,6 +251,14 @@ def run(ctx):
         viol.extend(part["viol"])
         transitions += part["transitions"]
         states.update(part["state_keys"])
+    two = [(fmt, a, b) for fmt in EXT for a, b in itertools.product([GOOD[fmt][0], BAD[fmt][0]], repeat=2)]
+    for part in core.pmap(work_two_inputs, two, chunk=4):
+        ctx.count(part["evals"], part["evals"])
+        for k, v in part["hist"].items():
+            ctx.outcome(k, v)
+        transitions += part["transitions"]
+        for sig, trace, det in part["viol"]:
+            ctx.violation(sig, "%s in %s" % (sig, core.json.dumps(trace)[:200]), {"kind": "two-inputs", "trace": trace, "detail": det})
     ctx.sample({"fmt": "toml", "initial": "sentinel", "builds": [["{a = NULL}"]], "model": "exit 1, probe.toml keeps its earlier bytes"})
     ctx.sample({"fmt": "json", "initial": "empty", "builds": [["{a = 1}"], ["cc"]], "model": "exit 0 then exit 1; probe.json = convert json {a = 1}"})
     ctx.coverage_extra.update({"states": max(1, len(states)), "transitions": max(1, transitions), "traces_validated_against_impl": len(trs)})
@@ -231,6 +273,12 @@ def run(ctx):
 
 def replay(case):
     tr = case["trace"]
+    if case.get("kind") == "two-inputs":
+        core._WORKER_SERVER = None
+        part = work_two_inputs([(tr["fmt"], tr["two_inputs"][0], tr["two_inputs"][1])])
+        core.worker_server().close()
+        core._WORKER_SERVER = None
+        return not part["viol"], {"violations": part["viol"]}
     core._WORKER_SERVER = None
     part = work([(tr["fmt"], tr["initial"], tr["builds"], tr.get("stem", "probe"), tr.get("invocation", "plain"))])
     core.worker_server().close()
